@@ -279,6 +279,12 @@ struct Const(bool);
 impl<P: Problem> Condition<P> for Const {
     fn evaluate(&self, _p: &P, _s: &mut State<P>) -> ExecResult<bool> { Ok(self.0) }
 }
+/// `X` present and `X >= k`.
+#[derive(Clone, Serialize)]
+struct XGe(u32);
+impl<P: Problem> Condition<P> for XGe {
+    fn evaluate(&self, _p: &P, s: &mut State<P>) -> ExecResult<bool> { Ok(s.try_get_value::<X>().map(|v| v >= self.0).unwrap_or(false)) }
+}
 /// Replays a script of outcomes, one per evaluation; `false` when exhausted.
 #[derive(Clone, Serialize)]
 struct Script { #[serde(skip)] q: Arc<Mutex<VecDeque<char>>> }
@@ -357,6 +363,7 @@ fn build_prog(nodes: &[Sx], mut b: ConfigurationBuilder<TP>) -> ConfigurationBui
             "addx" => b.do_(Box::new(AddX(a[0].nat().unwrap() as u32))),
             "loop" => { let body = a[1..].to_vec(); b.while_(LessThanN::iterations(a[0].nat().unwrap() as u32), move |bb| build_prog(&body, bb)) }
             "scope" => { let body = a.to_vec(); b.scope_(move |bb| build_prog(&body, bb)) }
+            "ifx" => { let body = a[1..].to_vec(); b.if_(Box::new(XGe(a[0].nat().unwrap() as u32)), move |bb| build_prog(&body, bb)) }
             _ => panic!("node {h}"),
         };
     }
@@ -402,6 +409,7 @@ fn run_program(input: &Sx) -> String {
 fn has_root_loop(tree: &[Sx]) -> bool {
     tree.iter().any(|n| match n.head() {
         Some(("loop", _)) => true,
+        Some(("ifx", a)) => has_root_loop(&a[1..]),
         _ => false,
     })
 }
@@ -850,8 +858,9 @@ fn gen_ext(r: &mut Sm) -> String {
 }
 fn gen_nodes(r: &mut Sm, depth: u32, len: u64) -> Vec<String> {
     (0..len).map(|_| {
-        let c = r.below(if depth == 0 { 6 } else { 10 });
+        let c = r.below(if depth == 0 { 6 } else { 11 });
         match c {
+            10 => { let k = r.below(6); let l = r.range(1, 3); tagged(&format!("ifx {k}"), gen_nodes(r, depth - 1, l)) }
             0..=2 => "(log)".to_string(),
             3 => format!("(setx {})", r.below(10)),
             4 | 5 => format!("(addx {})", r.range(1, 3)),
@@ -918,7 +927,10 @@ fn main() {
         Box::new(|n| format!("(tree (loop 2 (scope (setx 5) (loop {n} (log) (addx 1))) (log)))")),
         Box::new(|n| format!("(tree (setx 0) (loop {n} (loop 2 (log) (addx 1))))")),
         Box::new(|n| format!("(tree (setx 0) (loop {n} (log)) (loop {} (addx 1) (log)))", n + 2)),
+        Box::new(|n| format!("(tree (setx 0) (loop {n} (addx 1) (ifx 2 (log))))")),
+        Box::new(|n| format!("(tree (setx 3) (ifx 1 (loop {n} (log) (addx 1))) (ifx 9 (log)) (log))")),
         // no loop counter reachable from the root
+        Box::new(|n| format!("(tree (setx {n}) (ifx 2 (log)))")),
         Box::new(|_| "(tree (log))".to_string()),
         Box::new(|n| format!("(tree (setx {n}) (log) (log))")),
         Box::new(|_| "(tree (scope (setx 2) (log)))".to_string()),
@@ -933,7 +945,7 @@ fn main() {
         }
     }
     // 2. random programs and rule sets
-    let n_rand = if a.thorough { 20000 } else { 2500 };
+    let n_rand = if a.thorough { 100000 } else { 2500 };
     for _ in 0..n_rand {
         let nr = r.below(5);
         let rules = if r.chance(1, 25) { "noconfig".to_string() } else {
@@ -952,6 +964,7 @@ fn main() {
         let len = r.range(1, 4);
         let mut tree = gen_nodes(&mut r, 2, len);
         if r.chance(9, 10) && !tree.iter().any(|t| t.starts_with("(loop")) {
+            // (a loop only inside a branch also gives the root a counter; adding another loop is harmless)
             let n = r.below(6);
             let l = r.range(1, 3);
             let body = gen_nodes(&mut r, 1, l);
@@ -1014,7 +1027,7 @@ fn main() {
             }
         }
     }
-    let n_pairs = if a.thorough { 6000 } else { 700 };
+    let n_pairs = if a.thorough { 20000 } else { 700 };
     for i in 0..n_pairs {
         let t = gen_block(&mut r, 3);
         if i % 10 == 0 {
